@@ -1,4 +1,4 @@
-import PermutaModel.Model.C09
+import PermutaModel.Model.C09Repr
 open Proto
 
 namespace Driver.C09
@@ -20,6 +20,20 @@ def parseVals (s : String) : List Model.PyVal :=
 
 def showMeshes (l : List Mesh) : String :=
   if l.isEmpty then "-" else ";".intercalate (l.map showMesh)
+
+/-- a text argument `s:<characters>` in which `~` stands for a blank (tokens cannot contain blanks) -/
+def parseText (t : String) : List Char := (parseStr t).map fun c => if c = '~' then ' ' else c
+
+def showParsed : Option NSeq → String
+  | some s => showSeq s
+  | none => "NONE"
+
+/-- a rejection is printed as such, whether the text is outside the sub-grammar or the constructor's `assert`
+    fails (outside the sub-grammar Python raises exceptions of several classes, which are not compared) -/
+def showEvalMesh : Option (Except Err Mesh) → String
+  | some (.ok m) => showMesh m
+  | some (.error _) => "NONE"
+  | none => "NONE"
 
 def handle (op : String) (a : List String) : Option String :=
   match op, a with
@@ -62,6 +76,16 @@ def handle (op : String) (a : List String) : Option String :=
   | "mrank", [p, c] => some (toString (Model.meshRank ⟨parseSeq p, parseCells c⟩))
   | "moflen", [n, p] =>
       some (showExcept showMeshes (Model.meshOfLength (parseNat n) (if p == "N" then none else some (parseSeq p))))
+  | "reprparse", [t] => some (showParsed (Model.parseReprChars (parseText t)))
+  | "reprread", [p, t] =>
+      some (if Model.reprChars (parseSeq p) = parseText t then showParsed (Model.parseReprChars (parseText t))
+        else "TEXT:" ++ Model.repr (parseSeq p))
+  | "mrepr", [p, c] => some (Model.meshRepr ⟨parseSeq p, parseCells c⟩)
+  | "mreprparse", [t] => some (showEvalMesh (Model.evalMeshReprChars (parseText t)))
+  | "mreprread", [p, c, t] =>
+      some (if Model.meshReprChars ⟨parseSeq p, parseCells c⟩ = parseText t
+        then showEvalMesh (Model.evalMeshReprChars (parseText t))
+        else "TEXT:" ++ Model.meshRepr ⟨parseSeq p, parseCells c⟩)
   | _, _ => none
 
 end Driver.C09
